@@ -15,7 +15,13 @@ ADDR = re.compile(rb"0x[0-9a-fA-F]{4,}")
 
 
 def norm_out(b):
-    return ADDR.sub(b"0xADDR", b)
+    """Output as compared between the legs: addresses, and the world directory of the leg (a program can print its own
+    module path, which is absolute when the entry file was spelled as an absolute path)."""
+    return ADDR.sub(b"0xADDR", norm_world(b))
+
+
+def norm_world(b):
+    return re.sub(re.escape(core.worker_dir().encode()) + rb"/[a-z]+(?=/)", b"<world>", b)
 
 
 # ------------------------------------------------------------------ workloads
